@@ -215,7 +215,7 @@ func genJSONCase(r *Rand, i int) jsonCase {
 	c := eCase{Kind: kind, Policy: "error", Configs: map[int]string{2: "ext_range", 3: "ac_matcher"}}
 	ivals := []int64{-5, -1, 0, 1, 2, 3, 7, 100, 1000, 5000, 1 << 40, -(1 << 40)}
 	if r.Chance(10) {
-		ivals = append(ivals, 1<<53+1, -(1<<53 + 1), 1<<62 + 1)
+		ivals = append(ivals, 1<<53+1, -(1<<53 + 1), 1<<62+1)
 	}
 	words := []string{"red", "blue", "re", "x y", "日本"}
 	nd := 1 + r.Intn(5)
